@@ -64,6 +64,7 @@ P_CHAIN = 0.05  # ... and of an aggregate over two flattenings in a row
 
 
 P_ODD_BANK = 0.10
+P_RANGE = 0.08  # Range(...) windows / index loops / plain indexing per object-level expression slot
 
 
 def odd_bank(r, coll_name, bank, occ):
@@ -203,6 +204,28 @@ class QGen:
             if kk < 0.8:
                 return f"{o}.subs().Select(lambda {v}: {v}.{r.choice(DOUBLE_METHODS)}()).{r.choice(['Sum', 'Max'])}()", "double"
             return f"{o}.subs().Where(lambda {v}: {v}.pt() > {r.choice(FLOATS)}).Count()", "int"
+        if r.random() < P_RANGE:
+            i = self.var("i")
+            kk = r.random()
+            if kk < 0.45:
+                # a window of integers whose START depends on the object (its length may be the same for every object)
+                m = r.choice(["nTrk", "charge"])
+                self.declare(etype, m)
+                n = r.choice(["1", "2", "2", "3"])
+                tail, kind = r.choice([(".Sum()", "int"), (".Count()", "int"), (f".Select(lambda {i}: {i} * {r.choice(FLOATS)}).Sum()", "double"),
+                                       (f".Select(lambda {i}: {i} + {o}.pt()).Max()", "double"), (f".Where(lambda {i}: {i} > 0).Count()", "int"),
+                                       (".First()", "int")])
+                self.shape.append("orange_window")
+                return f"Range({o}.{m}(), {o}.{m}() + {n}){tail}", kind
+            m = r.choice(["cvals", "ivals"])
+            self.declare(etype, m)
+            if kk < 0.8:
+                # the classic index loop over the object's own vector
+                self.shape.append("orange_index")
+                return f"Range(0, {o}.{m}().Count()).Select(lambda {i}: {o}.{m}()[{i}]).Sum()", "double" if m == "cvals" else "int"
+            # plain indexing: undefined (a loud fault) when the vector is too short
+            self.shape.append("oindex")
+            return f"{o}.{m}()[{r.choice(['0', '0', '1'])}]", "double" if m == "cvals" else "int"
         if k < 0.65:
             a, _ = self.obj_num(o, etype, depth - 1)
             self.shape.append("arith")
@@ -464,7 +487,12 @@ class QGen:
             v = self.var("j")
             was = self.uncond
             self.uncond = False
-            if r.random() < 0.3 and depth > 0:
+            if r.random() < P_RANGE and ".Where(" not in s and ".SelectMany(" not in s:
+                # index loop over the collection itself: Range(0, n).Select(lambda i: coll[i].pt())
+                i = self.var("i")
+                self.shape.append("col1d_index_loop")
+                txt = f"Range({r.choice(['0', '0', '0', '1'])}, {s}.Count()).Select(lambda {i}: {s}[{i}].{r.choice(DOUBLE_METHODS)}())"
+            elif r.random() < 0.3 and depth > 0:
                 # a chain: the value computed for each object is handed to a second lambda that uses it several times,
                 # once inside a conditionally executed block and once outside
                 x, _ = self.obj_num(v, et, depth - 1, want="double")
@@ -518,7 +546,14 @@ class QGen:
         was = self.uncond
         self.uncond = False
         kk = r.random()
-        if r.random() < 0.2:
+        if r.random() < 2 * P_RANGE:
+            m = r.choice(["nTrk", "charge"])
+            self.declare(et, m)
+            i = self.var("i")
+            self.shape.append("col2d_range")
+            txt = (f"{s}.Select(lambda {v}: Range({v}.{m}(), {v}.{m}() + {r.choice(['1', '2', '3'])})"
+                   f".Select(lambda {i}: {i} {r.choice(['* 1.0', '+ ' + v + '.pt()', '* 2'])}))")
+        elif r.random() < 0.2:
             self.declare(et, "subs")
             v2 = self.var("sub")
             self.shape.append("col2d_subs")
